@@ -494,17 +494,19 @@ def parse_inst(l):
         I.rty = p.type()
         if isinstance(I.rty, FnTy): I.fnty = I.rty; I.rty = I.rty.ret
         I.callee = parse_value(p, None)
-        p.expect('('); I.args = []
+        p.expect('('); I.args = []; I.meta = []
         if not p.accept(')'):
             while True:
                 t = p.type(); skip_param_attrs(p)
                 if isinstance(t, MetaTy):
-                    # metadata arg: skip tokens until , or )
+                    # metadata arg: skip tokens until , or ) (text kept in I.meta: predicate / exception mode of constrained FP intrinsics)
                     depth = 0
+                    mt = []
                     while not (depth == 0 and p.peek()[1] in (',', ')')):
                         if p.peek()[1] == '(': depth += 1
                         if p.peek()[1] == ')': depth -= 1
-                        p.next()
+                        mt.append(str(p.next()[1]))
+                    I.meta.append(''.join(mt))
                     I.args.append((t, None))
                 else:
                     I.args.append((t, parse_value(p, t)))
@@ -802,16 +804,7 @@ def emit_func(f):
                 out.append('  %s = (%s);' % (d, e))
             elif op == 'fcmp':
                 a = V(I.ty, I.a); bb = V(I.ty, I.b)
-                pr = I.pred
-                un = '(%s != %s || %s != %s)' % (a, a, bb, bb)
-                base = {'eq':'==','ne':'!=','lt':'<','le':'<=','gt':'>','ge':'>='}
-                if pr == 'true': e = '1'
-                elif pr == 'false': e = '0'
-                elif pr == 'ord': e = '!%s' % un
-                elif pr == 'uno': e = un
-                elif pr[0] == 'o': e = '(!%s && %s %s %s)' % (un, a, base[pr[1:]], bb)
-                else: e = '(%s || %s %s %s)' % (un, a, base[pr[1:]], bb)
-                out.append('  %s = (%s);' % (d, e))
+                out.append('  %s = (%s);' % (d, fcmp_expr(I.pred, a, bb)))
             elif op in ('trunc',):
                 out.append('  %s = %s;' % (d, mask(I.ty, '(%s)%s' % (cty(I.ty), V(I.fty, I.a)))))
             elif op == 'zext':
@@ -902,6 +895,57 @@ def emit_func(f):
     out.append('}')
     return sig, '\n'.join(out)
 
+def fcmp_expr(pr, a, bb):
+    un = '(%s != %s || %s != %s)' % (a, a, bb, bb)
+    base = {'eq':'==','ne':'!=','lt':'<','le':'<=','gt':'>','ge':'>='}
+    if pr == 'true': return '1'
+    if pr == 'false': return '0'
+    if pr == 'ord': return '!%s' % un
+    if pr == 'uno': return un
+    if pr[0] == 'o': return '(!%s && %s %s %s)' % (un, a, base[pr[1:]], bb)
+    return '(%s || %s %s %s)' % (un, a, base[pr[1:]], bb)
+
+def emit_constrained(fe, I, out, d, cn, args, a):
+    """llvm.experimental.constrained.* (a TU compiled with strict FP exception semantics, e.g. `#pragma clang fp exceptions(strict)`):
+    same value as the plain instruction (default rounding mode assumed); with "fpexcept.strict" every arithmetic operation and every
+    float -> integer conversion additionally carries the LL_CEFP_* obligations of ll_prelude.h (operations that gcc / clang refuse
+    to evaluate in a constant expression, [expr.pre]/4). Returns False when the intrinsic is not one of these (generic handling)."""
+    cb = cn.split('.')[0]
+    metas = [m.group(1) for m in (re.search(r'"([^"]*)"', x) for x in getattr(I, 'meta', [])) if m]
+    strict = 'fpexcept.strict' in metas
+    rty = I.rty
+    if cb in ('fadd', 'fsub', 'fmul', 'fdiv'):
+        c = {'fadd':'+','fsub':'-','fmul':'*','fdiv':'/'}[cb]
+        out.append('  %s = %s %s %s;' % (d, a[0], c, a[1]))
+        if strict: out.append('  LL_CEFP_ARITH(%s, %s, %s, %d);' % (d, a[0], a[1], 1 if cb == 'fdiv' else 0))
+        return True
+    if cb == 'fmuladd':
+        out.append('  { %s t_ = %s * %s;' % (cty(rty), a[0], a[1]))
+        if strict: out.append('    LL_CEFP_ARITH(t_, %s, %s, 0);' % (a[0], a[1]))
+        out.append('    %s = t_ + %s;' % (d, a[2]))
+        if strict: out.append('    LL_CEFP_ARITH(%s, t_, %s, 0);' % (d, a[2]))
+        out.append('  }')
+        return True
+    if cb == 'frem':
+        out.append('  %s = %s(%s, %s);' % (d, 'fmodf' if resolve(rty).k == 'float' else 'fmod', a[0], a[1])); return True
+    if cb in ('fcmp', 'fcmps'):
+        out.append('  %s = (%s);' % (d, fcmp_expr(metas[0], a[0], a[1]))); return True
+    if cb in ('fptrunc', 'fpext', 'uitofp'):
+        out.append('  %s = (%s)%s;' % (d, cty(rty), a[0])); return True
+    if cb == 'sitofp':
+        out.append('  %s = (%s)%s;' % (d, cty(rty), sext_expr(args[0][0], a[0]))); return True
+    if cb in ('fptosi', 'fptoui'):
+        bits = resolve(rty).bits
+        if strict:
+            if cb == 'fptosi': lo, hi = '-0x1p%d' % (bits - 1) + (' - 1' if bits <= 32 else ''), '0x1p%d' % (bits - 1)
+            else: lo, hi = '-1', '0x1p%d' % bits
+            cmp_lo = '>' if (cb == 'fptoui' or bits <= 32) else '>='
+            out.append('  LL_CEFP_CAST((double)%s %s %s && (double)%s < %s);' % (a[0], cmp_lo, lo, a[0], hi))
+        if cb == 'fptosi': out.append('  %s = %s;' % (d, mask(rty, '(%s)(%s)%s' % (cty(rty), sty(sizeof(rty)*8), a[0]))))
+        else: out.append('  %s = %s;' % (d, mask(rty, '(%s)%s' % (cty(rty), a[0]))))
+        return True
+    return False
+
 def emit_call(fe, I, out, d):
     V = fe.val
     c = I.callee
@@ -922,6 +966,9 @@ def emit_call(fe, I, out, d):
         if n.startswith('prefetch') or n.startswith('donothing') or n.startswith('stacksave') or n.startswith('stackrestore') or n.startswith('annotation') or n.startswith('var.annotation'): 
             if d: out.append('  %s = 0;' % d)
             return
+        if n.startswith('experimental.constrained.'):
+            if emit_constrained(fe, I, out, d, n[len('experimental.constrained.'):], args, a): return
+            n = n[len('experimental.constrained.'):]   # floor, sqrt, fma, ...: value as the plain intrinsic
         if n.startswith('fma.'):
             suf = 'f' if resolve(I.rty).k == 'float' else ''
             out.append('  %s = fma%s(%s, %s, %s);' % (d, suf, a[0], a[1], a[2])); return
